@@ -147,10 +147,16 @@ func verif_C10_client_stub() {
 	}
 	vc.in = []byte(script)
 	// inside TLS the server announces one extension, or none at all
-	bare := nondetBool()
+	insideKind := verifChoice(4) // 0 one extension, 1 none (a bare 250), 2 EHLO refused with 503, 3 refused with 550
+	bare := insideKind == 1
 	insideEhlo := "250-inside.example\r\n250 SMTPUTF8\r\n"
-	if bare {
+	switch insideKind {
+	case 1:
 		insideEhlo = "250 inside.example\r\n"
+	case 2:
+		insideEhlo = "503 5.5.1 duplicate EHLO\r\n"
+	case 3:
+		insideEhlo = "550 5.7.1 go away\r\n"
 	}
 	vc.tlsIn = []byte(insideEhlo + "250 2.0.0 ok\r\n250 2.0.0 ok\r\n354 go\r\n250 2.0.0 ok\r\n221 2.0.0 bye\r\n")
 	usePkg := nondetBool()
@@ -168,7 +174,16 @@ func verif_C10_client_stub() {
 	verifObserve("c10c", mis, usePkg, err == nil, len(vc.out), len(vc.tlsOut))
 	verifPlainLinesOnly(vc.out, "C10.client-plaintext-only-greeting-and-starttls")
 	upgraded := mis == 0 || mis == 3 || mis == 4
-	if upgraded {
+	if upgraded && insideKind >= 2 {
+		// the greeting inside TLS is refused: nothing may be sent on the
+		// strength of what was learned in plaintext
+		verifReach("C10.client-inside-ehlo-refused")
+		verifAssert(err != nil, "C10.client-fails-when-inside-ehlo-is-refused")
+		for _, l := range verifSplitLines(vc.tlsOut) {
+			u := strings.ToUpper(l)
+			verifAssert(strings.HasPrefix(u, "EHLO ") || strings.HasPrefix(u, "HELO ") || u == "QUIT", "C10.client-sends-nothing-on-plaintext-capabilities")
+		}
+	} else if upgraded {
 		verifReach("C10.client-upgraded")
 		verifAssert(err == nil, "C10.client-sends-after-upgrade")
 		il := verifSplitLines(vc.tlsOut)
